@@ -38,18 +38,19 @@ theorem crcIter_high (n : Nat) (x : W32) (h : ∀ i, i < n → x.getLsbD i = fal
     ext i; simp [BitVec.getLsbD_ushiftRight]; congr 1; omega
 
 theorem lsb_and_one (c : W32) : (c &&& 1#32 != 0#32) = c.getLsbD 0 := by
-  cases h : c.getLsbD 0
+  rw [BitVec.getLsbD_eq_getElem (by decide : 0 < 32)]
+  cases h : c[0]
   · have : c &&& 1#32 = 0#32 := by
       ext i hi
       simp only [BitVec.getElem_and, BitVec.getElem_one, BitVec.getElem_zero]
       by_cases hi0 : i = 0
-      · subst hi0; simp [BitVec.getLsbD_eq_getElem] at h; simp [h]
+      · subst hi0; simp [h]
       · simp [hi0]
     simp [this]
   · have : c &&& 1#32 ≠ 0#32 := by
       intro h0
-      have := congrArg (fun v => v.getLsbD 0) h0
-      simp [h] at this
+      have h1 : (c &&& 1#32)[0] = (0#32)[0] := by rw [h0]
+      simp [h] at h1
     simp [this]
 
 theorem crcTableStep_eq (c : W32) : Model.crcTableStep c = crcStep1 c := by
@@ -79,10 +80,39 @@ theorem ff_bit (i : Nat) : (0xFF#32).getLsbD i = decide (i < 8) := by
     simp [h, this]
   · simp [h]
 
+theorem himask_bit (i : Nat) : (~~~(0xFF#32)).getLsbD i = (decide (i < 32) && !decide (i < 8)) := by
+  rw [BitVec.getLsbD_not, ff_bit]
+
 theorem byte_bit_high (b : UInt8) (i : Nat) (hi : 8 ≤ i) : (BitVec.ofNat 32 b.toNat).getLsbD i = false := by
   rw [BitVec.getLsbD_ofNat]
   have : b.toNat < 2 ^ i := Nat.lt_of_lt_of_le b.toNat_lt (Nat.pow_le_pow_right (by decide) hi)
   simp [Nat.testBit_lt_two_pow this]
+
+/-- eight steps on a register = table entry of its low byte, xor the rest shifted -/
+theorem crcIter8_split (x : W32) :
+    crcIter 8 x = crcIter 8 (x &&& 0xFF#32) ^^^ (x >>> 8) := by
+  generalize hm : ~~~(0xFF#32) = m
+  have hmb : ∀ i, m.getLsbD i = (decide (i < 32) && !decide (i < 8)) := by
+    intro i; rw [← hm]; exact himask_bit i
+  have hsplit : x = (x &&& 0xFF#32) ^^^ (x &&& m) := by
+    apply BitVec.eq_of_getLsbD_eq
+    intro i hi
+    simp only [BitVec.getLsbD_xor, BitVec.getLsbD_and, hmb, ff_bit, hi, decide_true, Bool.true_and]
+    cases x.getLsbD i <;> cases decide (i < 8) <;> rfl
+  have hhigh : crcIter 8 (x &&& m) = x >>> 8 := by
+    rw [crcIter_high]
+    · apply BitVec.eq_of_getLsbD_eq
+      intro i hi
+      simp only [BitVec.getLsbD_ushiftRight, BitVec.getLsbD_and, hmb]
+      have h8 : ¬ (8 + i < 8) := by omega
+      by_cases h32 : 8 + i < 32
+      · simp [h8, h32]
+      · rw [BitVec.getLsbD_of_ge x (8 + i) (by omega)]; simp
+    · intro i hi
+      simp only [BitVec.getLsbD_and, hmb]
+      have : i < 8 := hi
+      simp [this]
+  conv => lhs; rw [hsplit, crcIter_xor, hhigh]
 
 /-- the table-driven update of verifyCRC32C is the bit-serial update -/
 theorem crcUpdate_eq (c : W32) (b : UInt8) : Model.crcUpdate Model.makeCRC32CTable c b = crcByte c b := by
@@ -93,22 +123,15 @@ theorem crcUpdate_eq (c : W32) (b : UInt8) : Model.crcUpdate Model.makeCRC32CTab
       rw [BitVec.toNat_and]; exact Nat.and_le_right
     have h255 : (0xFF#32).toNat = 255 := rfl
     omega
-  rw [table_getD _ hlt, BitVec.ofNat_toNat, BitVec.setWidth_eq]
-  -- split x into its low byte and the rest
-  have hsplit : x = (x &&& 0xFF#32) ^^^ (x &&& ~~~0xFF#32) := by
-    ext i hi
-    simp only [BitVec.getElem_xor, BitVec.getElem_and, BitVec.getElem_not]
-    cases x[i] <;> cases (0xFF#32)[i] <;> rfl
-  have hhigh : crcIter 8 (x &&& ~~~0xFF#32) = c >>> 8 := by
-    rw [crcIter_high]
-    · ext i hi
-      simp only [BitVec.getElem_ushiftRight, BitVec.getLsbD_and, BitVec.getLsbD_not, ff_bit, ← hx, BitVec.getLsbD_xor]
-      rw [byte_bit_high b (8 + i) (by omega)]
-      have : ¬ (8 + i < 8) := by omega
-      by_cases h32 : 8 + i < 32 <;> simp [this, h32]
-    · intro i hi
-      simp [BitVec.getLsbD_and, BitVec.getLsbD_not, ff_bit, hi]
-  conv => rhs; rw [hsplit, crcIter_xor, hhigh]
+  rw [table_getD _ hlt, BitVec.ofNat_toNat, BitVec.setWidth_eq, crcIter8_split x]
+  congr 1
+  -- x >>> 8 = c >>> 8: the byte has no bits above 7
+  rw [← hx]
+  apply BitVec.eq_of_getLsbD_eq
+  intro i hi
+  simp only [BitVec.getLsbD_ushiftRight, BitVec.getLsbD_xor]
+  rw [byte_bit_high b (8 + i) (by omega)]
+  simp
 
 theorem crcFold_eq (bs : Bytes) (c : W32) :
     bs.foldl (Model.crcUpdate Model.makeCRC32CTable) c = crcFeed c bs := by
